@@ -1471,7 +1471,10 @@ func (r *runningStep) closedEarly(stageToMarkUnresolvable StageID, priorStageFai
 	} else {
 		r.transitionRunningStage(StageIDClosed)
 	}
-	closedOutput := any(map[any]any{"cancelled": r.cancelled, "close_requested": r.closed.Load()})
+	r.lock.Lock()
+	cancelled := r.cancelled // written by provideCancelledInput under the lock
+	r.lock.Unlock()
+	closedOutput := any(map[any]any{"cancelled": cancelled, "close_requested": r.closed.Load()})
 
 	r.completeStep(
 		StageIDClosed,
